@@ -1,0 +1,254 @@
+//go:build verif
+
+package node
+
+// Contracts of the hot node's message handling (checked by /verif/gocv; comment-only file).
+//
+// Ghost state
+//   $mayWrite   the message being handled is authorised to change durable state: it passed verifyMessage,
+//               or it is a reinitialisation message (exempt by the protocol, confirmed out of band by hash)
+//   $initEvent  the message being handled is the proposal that opens a round (exempt as well)
+//   $fx         number of durable effects so far (writes of round dumps, signatures, operations, board posts)
+//   $vSender/$vData/$vSig/$vRound   what the last successful verifyMessage actually checked
+//@ ghost var $mayWrite bool
+//@ ghost var $initEvent bool
+//@ ghost var $fx int
+//@ ghost var $sends int
+//@ ghost var $lastSent []storage.Message
+//@ ghost var $stored *types.Operation
+//@ ghost var $pend set[string]
+//@ ghost var $retired set[string]
+//@ ghost var $handledNext uint64
+//   $dos = successful FSMInstance.Do calls so far, $savedAtDo = value of $dos when the round was last saved
+//@ ghost var $dos int
+//@ ghost var $savedAtDo int
+//@ ghost var $vSender string
+//@ ghost var $vData bytesvalue
+//@ ghost var $vSig bytesvalue
+//@ ghost var $vRound string
+//@ ghost func edValid(key bytesvalue, msg bytesvalue, sig bytesvalue) bool
+//@ ghost func roundOf(i *state_machines.FSMInstance) string
+//@ ghost func requestSpeaksFor(req interface{}, i *state_machines.FSMInstance, sender string) bool
+
+//@ import state_machines "github.com/lidofinance/dc4bc/fsm/state_machines"
+//@ import storage "github.com/lidofinance/dc4bc/storage"
+
+// ---- durable effects: interface contracts (every implementation is an effect; the guard is the property)
+//@ func (github.com/lidofinance/dc4bc/client/services/fsmservice.FSMService).SaveFSM
+//@   assumed
+//@   requires[C09.guard] $mayWrite || $initEvent
+//@   pure
+//@   epilogue $fx = old($fx) + 1
+//@   epilogue $savedAtDo = ite(result == nil, $dos, old($savedAtDo))
+//@ func (github.com/lidofinance/dc4bc/client/services/signature.SignatureService).SaveSignatures
+//@   assumed
+//@   requires[C09.guard] $mayWrite || $initEvent
+//@   pure
+//@   epilogue $fx = old($fx) + 1
+//@ func (github.com/lidofinance/dc4bc/client/services/operation.OperationService).PutOperation
+//@   assumed
+//@   requires[C09.guard] $mayWrite || $initEvent
+//@   pure
+//@   epilogue $fx = old($fx) + 1
+//@ func (github.com/lidofinance/dc4bc/storage.Storage).Send
+//@   assumed
+//@   requires[C09.guard] $mayWrite || $initEvent
+//@   pure
+//@   epilogue $fx = old($fx) + 1
+//@   epilogue $sends = old($sends) + 1
+//@   epilogue $lastSent = messages
+
+// GetFSMInstance(id, true) may create and store an empty entry for a round id that was unknown; it never
+// changes an existing round (not counted as an effect on existing state).
+//@ func (github.com/lidofinance/dc4bc/client/services/fsmservice.FSMService).GetFSMInstance
+//@   assumed
+//@   pure
+//@   ensures result1 == nil ==> result0 != nil && fresh(result0) && roundOf(result0) == dkgRoundID && (result0.dump != nil ==> result0.dump.Payload != nil)
+//@ func (github.com/lidofinance/dc4bc/client/modules/logger.Logger).Log
+//@   assumed
+//@   pure
+
+// ---- the signature check
+//@ func (*BaseNodeService).GetSkipCommKeysVerification
+//@   requires s != nil
+//@   pure
+//@   ensures result == s.SkipCommKeysVerification
+
+//@ func (*BaseNodeService).verifyMessage
+//@   requires s != nil && fsmInstance != nil && (fsmInstance.dump != nil ==> fsmInstance.dump.Payload != nil)
+//@   pure
+//@   epilogue $mayWrite = old($mayWrite) || result == nil
+//@   epilogue $vSender = ite(result == nil, message.SenderAddr, old($vSender))
+//@   epilogue $vData = ite(result == nil, content(message.Data), old($vData))
+//@   epilogue $vSig = ite(result == nil, content(message.Signature), old($vSig))
+//@   epilogue $vRound = ite(result == nil, roundOf(fsmInstance), old($vRound))
+//@   ensures[C09.verify] result == nil ==> s.SkipCommKeysVerification || (fsmInstance.dump != nil && fsmInstance.dump.Payload != nil && message.SenderAddr in fsmInstance.dump.Payload.PubKeys && edValid(content(fsmInstance.dump.Payload.PubKeys[message.SenderAddr]), content(message.Data), content(message.Signature)))
+
+// ---- handlers of verified messages: every durable effect is behind the guard
+//@ func (*BaseNodeService).processSignature
+//@   requires s != nil
+//@   requires[C09.guard] $mayWrite || $initEvent
+//@   pure
+//@   modifies $fx
+
+//@ func (*BaseNodeService).processSignatureProposal
+//@   requires s != nil
+//@   requires[C09.guard] $mayWrite || $initEvent
+//@   pure
+//@   modifies $fx
+
+//@ func (*BaseNodeService).broadcastReconstructedSignatures
+//@   requires s != nil
+//@   requires[C09.guard] $mayWrite || $initEvent
+//@   pure
+//@   modifies $fx, $sends, $lastSent
+
+// Entry point for one board message: nothing is authorised yet, except for a reinitialisation message.
+//@ func (*BaseNodeService).ProcessMessage
+//@   nosafety
+//@   requires s != nil
+//@   prologue $mayWrite = (message.Event == "reinit_dkg")
+//@   prologue $initEvent = false
+//@   modifies *
+//@   modifies $vSender, $vData, $vSig, $vRound, $fx, $sends, $lastSent, $stored, $pend, $retired, $bufc, $dos, $savedAtDo
+//@   epilogue $handledNext = message.Offset + 1
+//@   ensures unchanged("BaseNodeService.userName", "BaseNodeService.state", "BaseNodeService.storage", "BaseNodeService.ctx")
+//@   ensures[C09.skip.keep] s.SkipCommKeysVerification == old(s.SkipCommKeysVerification)
+//@   ensures[C09.entry.reject] !$mayWrite && !$initEvent ==> $fx == old($fx)
+
+//@ ghost func keyOf(user string) bytesvalue
+//@ ghost func edSign(priv bytesvalue, msg bytesvalue) bytesvalue
+//@ func (github.com/lidofinance/dc4bc/client/modules/keystore.KeyStore).LoadKeys
+//@   assumed
+//@   pure
+//@   ensures result1 == nil ==> result0 != nil && content(result0.Priv) == keyOf(userName)
+
+//@ func (*BaseNodeService).signMessage
+//@   requires s != nil
+//@   pure
+//@   ensures[C15.sign] result1 == nil ==> content(result0) == edSign(keyOf(s.userName), content(message))
+
+//@ func (*BaseNodeService).buildMessage
+//@   requires s != nil
+//@   pure
+//@   ensures result1 == nil ==> result0 != nil && fresh(result0)
+
+// ---- callees of processMessage (thin contracts: what they may touch; none of them has a ghost effect)
+//@ import types "github.com/lidofinance/dc4bc/client/types"
+//@ func github.com/lidofinance/dc4bc/client/types.FSMRequestFromMessage
+//@   assumed
+//@   pure
+//@ func github.com/lidofinance/dc4bc/client/types.NewOperation
+//@   assumed
+//@   pure
+//@   ensures result != nil && fresh(result)
+//@ func (*github.com/lidofinance/dc4bc/fsm/state_machines.FSMInstance).Do
+//@   assumed
+//@   modifies *
+//@   epilogue $dos = ite(result2 == nil, old($dos) + 1, old($dos))
+//@   ensures result2 == nil ==> result0 != nil
+//@   ensures unchanged("BaseNodeService.SkipCommKeysVerification", "BaseNodeService.userName", "BaseNodeService.state", "BaseNodeService.storage", "BaseNodeService.ctx", "[]storage.Message", "types.ReDKG.Messages")
+//@ func reconstructThresholdSignature
+//@   assumed
+//@   pure
+
+//@ func (*BaseNodeService).processMessage
+//@   safety C18
+//@   safetykinds type assertion
+//@   requires s != nil
+//@   prologue $initEvent = (message.Event == "event_sig_proposal_init")
+//@   modifies *
+//@   modifies $mayWrite, $vSender, $vData, $vSig, $vRound, $fx, $sends, $lastSent, $dos, $savedAtDo
+// the participant a request speaks for must be the participant registered under the sender's name (third Do: the event itself)
+// the automatic restart of a cancelled batch is saved before the event itself is applied, so that it survives
+// even if the event is then rejected
+//@   assert@call Do#3[C06.restart.persisted,C07.restart.persisted] $savedAtDo == $dos || $dos == old($dos)
+//@   assert@call Do#3[C10.sender] requestSpeaksFor(loc(fsmReq), loc(fsmInstance), message.SenderAddr)
+//@   ensures[C09.authorised] result1 == nil ==> $mayWrite || $initEvent
+//@   ensures[C09.bound] result1 == nil && !$initEvent && !old($mayWrite) ==> $vSender == message.SenderAddr && $vData == old(content(message.Data)) && $vSig == old(content(message.Signature)) && $vRound == message.DkgRoundID
+//@   ensures[C09.reject] !$mayWrite && !$initEvent ==> $fx == old($fx)
+//@   ensures old($mayWrite) ==> $mayWrite
+//@   ensures[C09.skip.keep] s.SkipCommKeysVerification == old(s.SkipCommKeysVerification)
+//@   ensures unchanged("BaseNodeService.userName", "BaseNodeService.state", "BaseNodeService.storage", "BaseNodeService.ctx", "[]storage.Message", "types.ReDKG.Messages")
+
+//@ func (github.com/lidofinance/dc4bc/client/services/fsmservice.FSMService).IsExist
+//@   assumed
+//@   pure
+
+//@ func (*BaseNodeService).SetSkipCommKeysVerification
+//@   requires s != nil
+//@   modifies BaseNodeService.SkipCommKeysVerification
+//@   ensures s.SkipCommKeysVerification == b
+//@   ensures forall o *BaseNodeService :: o != s ==> o.SkipCommKeysVerification == old(o.SkipCommKeysVerification)
+
+// The reinitialisation message is exempt from the signature check (confirmed out of band by hash); the
+// switch it sets while replaying the old log is restored on every return path.
+//@ func (*BaseNodeService).reinitDKG
+//@   nosafety
+//@   requires s != nil
+//@   requires[C09.guard] $mayWrite
+//@   modifies *
+//@   modifies $mayWrite, $initEvent, $vSender, $vData, $vSig, $vRound, $fx, $sends, $lastSent, $bufc, $dos, $savedAtDo
+//@   loop 0 invariant $mayWrite && s.SkipCommKeysVerification
+//@   loop 0 invariant req.Messages == $range
+//@   loop 0 invariant[C20.replay.stop] forall j int :: 0 <= j && j <= $i ==> req.Messages[j].Event != "event_signing_start"
+//@   assert@call processMessage[C20.replay.stop] forall j int :: 0 <= j && j <= $i + 1 ==> loc(req).Messages[j].Event != "event_signing_start"
+//@   loop 1 invariant $mayWrite && s.SkipCommKeysVerification
+//@   ensures[C09.skip.restore] s.SkipCommKeysVerification == old(s.SkipCommKeysVerification)
+//@   ensures $mayWrite
+//@   ensures unchanged("BaseNodeService.userName", "BaseNodeService.state", "BaseNodeService.storage", "BaseNodeService.ctx")
+
+
+// ---- answering operations (C15)
+// interface contracts of the pool: a successful lookup confirms that the id is pending right now
+//@ func (github.com/lidofinance/dc4bc/client/services/operation.OperationService).GetOperationByID
+//@   assumed
+//@   pure
+//@   epilogue $stored = result0
+//@   epilogue $pend = ite(result1 == nil, with(old($pend), operationID, true), old($pend))
+//@   ensures result1 == nil ==> result0 != nil && result0.ID == operationID && fresh(result0)
+//@ func (github.com/lidofinance/dc4bc/client/services/operation.OperationService).DeleteOperation
+//@   assumed
+//@   requires[C09.guard] $mayWrite || $initEvent
+//@   pure
+//@   epilogue $fx = old($fx) + 1
+//@   epilogue $retired = ite(result == nil, with(old($retired), operation.ID, true), old($retired))
+//@ func (github.com/lidofinance/dc4bc/client/services/fsmservice.FSMService).GetFSMDump
+//@   assumed
+//@   pure
+
+// API entry: the operator's own request is authorised by definition (it is not a board message)
+//@ func (*BaseNodeService).executeOperation
+//@   nosafety
+//@   requires s != nil && operation != nil
+//@   prologue $mayWrite = true
+//@   modifies *
+//@   modifies $initEvent, $fx, $sends, $lastSent, $stored, $pend, $retired, $dos, $savedAtDo
+//@   loop 0 invariant $sends == old($sends) && unchanged("BaseNodeService.userName", "types.Operation.ID", "types.Operation.Type", "types.Operation.Payload", "types.Operation.ResultMsgs", "types.Operation.Event", "[]byte")
+//@   loop 0 invariant $stored != nil && $stored != operation && ($stored.ID in $pend)
+//@   loop 0 invariant forall j int :: 0 <= j && j <= $i ==> operation.ResultMsgs[j].SenderAddr == s.userName && content(operation.ResultMsgs[j].Signature) == edSign(keyOf(s.userName), content(operation.ResultMsgs[j].Data))
+//@   loop 0 invariant forall j int :: 0 <= j && j <= $i ==> operation.ResultMsgs[j].Data == old(operation.ResultMsgs[j].Data) && operation.ResultMsgs[j].Event == old(operation.ResultMsgs[j].Event) && operation.ResultMsgs[j].DkgRoundID == old(operation.ResultMsgs[j].DkgRoundID) && operation.ResultMsgs[j].RecipientAddr == old(operation.ResultMsgs[j].RecipientAddr) && operation.ResultMsgs[j].ID == old(operation.ResultMsgs[j].ID)
+//@   loop 0 invariant forall j int :: $i < j && j < len(operation.ResultMsgs) ==> operation.ResultMsgs[j] == old(operation.ResultMsgs[j])
+//@   ensures[C15.issued] $sends != old($sends) ==> $stored != nil && ($stored.ID in $pend) && $stored.ID == operation.ID && $stored.Type == operation.Type && content($stored.Payload) == content(operation.Payload) && operation.Event != ""
+//@   ensures[C15.once] $sends <= old($sends) + 1
+//@   ensures[C15.messages] $sends != old($sends) ==> $lastSent == operation.ResultMsgs && (forall j int :: 0 <= j && j < len(operation.ResultMsgs) ==> operation.ResultMsgs[j].SenderAddr == s.userName && content(operation.ResultMsgs[j].Signature) == edSign(keyOf(s.userName), content(operation.ResultMsgs[j].Data)) && operation.ResultMsgs[j].Data == old(operation.ResultMsgs[j].Data) && operation.ResultMsgs[j].Event == old(operation.ResultMsgs[j].Event) && operation.ResultMsgs[j].DkgRoundID == old(operation.ResultMsgs[j].DkgRoundID) && operation.ResultMsgs[j].RecipientAddr == old(operation.ResultMsgs[j].RecipientAddr))
+//@   ensures[C15.retired] result == nil ==> (operation.ID in $retired)
+
+
+// ---- the polling loop (C13): the saved offset moves past a message only after that message was handled
+// (or skipped because it is addressed to somebody else), one message at a time, in order.
+//@ func (github.com/lidofinance/dc4bc/client/modules/state.State).SaveOffset
+//@   assumed
+//@   pure
+//@ func (github.com/lidofinance/dc4bc/client/modules/state.State).LoadOffset
+//@   assumed
+//@   pure
+//@ func (github.com/lidofinance/dc4bc/storage.Storage).GetMessages
+//@   assumed
+//@   pure
+//@ func (*BaseNodeService).Poll
+//@   nosafety
+//@   requires s != nil
+//@   modifies *
+//@   modifies $mayWrite, $initEvent, $vSender, $vData, $vSig, $vRound, $fx, $sends, $lastSent, $stored, $pend, $retired, $handledNext, $bufc, $dos, $savedAtDo
+//@   assert@call SaveOffset[C13.offset] arg0 == message.Offset + 1 && ($handledNext == arg0 || !(message.RecipientAddr == "" || message.RecipientAddr == s.userName))
